@@ -134,12 +134,16 @@ let var_spec alts steps =
   join (List.rev !buf)
 
 (* ------------------------------------------------------------------ optional *)
-let oop_of s =
+(* nu: normalisation of a U-typed literal (U = bool: any non-zero value is true) *)
+let norm_u tU v = if tU = TBool then (if Big.equal (big_of_z v) Big.zero then Z0 else zi 1) else v
+
+let oop_of tU s =
   let t = tb s.t in
+  let nu = norm_u tU in
   match s.opc with
   | 'e' -> OEmplace (t, zi s.p)
   | 'a' | 'w' -> OAssignT (t, zi s.p)
-  | 'u' -> OAssignU (t, zi s.p)
+  | 'u' -> OAssignU (t, nu (zi s.p))
   | 'n' -> ONullopt t
   | 'b' -> OBraces t
   | 'r' -> OReset t
@@ -151,14 +155,15 @@ let oop_of s =
   | 'f' -> OSelfCopy t
   | 'g' -> OSelfMove t
   | 'h' -> OOwnValue t
+  | 'v' -> OOwnMember t
   | 'x' -> OAssignOptU t
   | 'y' -> OMoveOptU t
   | 'X' -> OCtorOptU t
   | 'Y' -> OCtorMoveOptU t
-  | 'E' -> OEmplaceC (zi s.p)
+  | 'E' -> OEmplaceC (nu (zi s.p))
   | 'R' -> OResetC
   | 'i' | 'j' | 'p' | 'P' | 'q' -> OCtorValue (t, zi s.p)   (* p, P, q: make_optional(value) / make_optional<T>(args) / make_optional(lvalue) *)
-  | 'J' -> OCtorValueU (t, zi s.p)
+  | 'J' -> OCtorValueU (t, nu (zi s.p))
   | 'd' | 'D' -> OCtorEmpty t
   | _ -> raise Not_found
 
@@ -187,7 +192,7 @@ let opt_model tT tU steps =
   let st = ref ((opt_empty, opt_empty), opt_empty) in
   List.iter
     (fun s ->
-      st := ok_or (ostep tT tU !st (oop_of s));
+      st := ok_or (ostep tT tU !st (oop_of tU s));
       let (a, b), c = !st in
       (if s.opc = 'e' then
        let x = if tb s.t then b else a in
@@ -198,7 +203,7 @@ let opt_model tT tU steps =
   let (a, b), c = !st in
   let observers a b =
     add [ "o"; b2s (has_value a); b2s (has_value a); so (view a) ];
-    add (List.map (fun d -> si (ok_or (opt_value_or a (zi d)))) [ 7; 8; 9 ]);
+    add (List.map (fun d -> si (ok_or (opt_value_or a d))) [ zi 7; conv tU tT (norm_u tU (zi 8)); zi 9 ]);
     let r = so (ok_or (opt_and_then a f_and_then)) in
     add [ r; r; r ];
     let g = sstate (ok_or (opt_or_else tT a (Some (zi 42)))) in
@@ -216,7 +221,9 @@ let opt_model tT tU steps =
       (fun v ->
         let l = six (fun k -> ok_or (opt_rel_val k false a (zi v))) in
         let r = six (fun k -> ok_or (opt_rel_val k true a (zi v))) in
-        add [ l; r; l; r ])
+        let lu = six (fun k -> ok_or (opt_rel_val k false a (norm_u tU (zi v)))) in
+        let ru = six (fun k -> ok_or (opt_rel_val k true a (norm_u tU (zi v)))) in
+        add [ l; r; lu; ru ])
       [ 1; 2; 3 ];
     add [ six (fun k -> ok_or (opt_rel k a c)); six (fun k -> ok_or (opt_rel k c a)) ]
   in
@@ -234,7 +241,7 @@ let opt_spec tT tU steps =
   let st = ref ((None, None), None) in
   List.iter
     (fun s ->
-      st := so_step tT tU !st (oop_of s);
+      st := so_step tT tU !st (oop_of tU s);
       let (a, b), c = !st in
       (if s.opc = 'e' then
        let x = if tb s.t then b else a in
@@ -246,7 +253,7 @@ let opt_spec tT tU steps =
   let observers a b =
     let h = b2s (a <> None) in
     add [ "o"; h; h; so a ];
-    add (List.map (fun d -> si (so_value_or a (zi d))) [ 7; 8; 9 ]);
+    add (List.map (fun d -> si (so_value_or a d)) [ zi 7; conv tU tT (norm_u tU (zi 8)); zi 9 ]);
     let r = so (so_and_then a f_and_then) in
     add [ r; r; r ];
     let g = sstate (so_or_else a (Some (zi 42))) in
@@ -264,7 +271,9 @@ let opt_spec tT tU steps =
       (fun v ->
         let l = six (fun k -> so_rel_val k false a (zi v)) in
         let r = six (fun k -> so_rel_val k true a (zi v)) in
-        add [ l; r; l; r ])
+        let lu = six (fun k -> so_rel_val k false a (norm_u tU (zi v))) in
+        let ru = six (fun k -> so_rel_val k true a (norm_u tU (zi v))) in
+        add [ l; r; lu; ru ])
       [ 1; 2; 3 ];
     add [ six (fun k -> so_rel k a c); six (fun k -> so_rel k c a) ]
   in
@@ -497,12 +506,20 @@ let run_case op tk =
       (guard (fun () -> var_model alts steps), guard (fun () -> var_spec alts steps))
   | None -> (
       match op with
-      | "opt.is" | "opt.ti" | "opt.t2" ->
-          let tT, tU = match op with "opt.is" -> (TInt, TShort) | "opt.ti" -> (TTr, TInt) | _ -> (TTr2, TTr) in
+      | "opt.is" | "opt.ti" | "opt.t2" | "opt.ib" ->
+          let tT, tU =
+            match op with
+            | "opt.is" -> (TInt, TShort)
+            | "opt.ti" -> (TTr, TInt)
+            | "opt.ib" -> (TInt, TBool)
+            | _ -> (TTr2, TTr)
+          in
           let steps = read_steps tk in
           (guard (fun () -> opt_model tT tU steps), guard (fun () -> opt_spec tT tU steps))
-      | "exp.il" | "exp.tt" | "exp.ti" ->
-          let tT, tE = match op with "exp.il" -> (TInt, TLong) | "exp.tt" -> (TTr, TTr2) | _ -> (TTr, TInt) in
+      | "exp.il" | "exp.tt" | "exp.ti" | "exp.ii" ->
+          let tT, tE =
+            match op with "exp.il" -> (TInt, TLong) | "exp.tt" -> (TTr, TTr2) | "exp.ii" -> (TInt, TInt) | _ -> (TTr, TInt)
+          in
           let steps = read_steps tk in
           (guard (fun () -> exp_model tT tE steps), guard (fun () -> exp_spec tT tE steps))
       | "unx.il" | "unx.tt" ->
